@@ -362,3 +362,29 @@ def c11e(ctx):
     g = wk.cfg
     ok = ok and all(g.guarded(g.node_of[id(s)], lambda at: at.op == 'in' and unparse(at.left) == 'current_level', True) for s in lv)
     ctx.check(ok, 'TileWalker._walk:levels-consumed', 'a level is removed from the remaining levels exactly when it is the current one', wk)
+
+
+@rule('C11.f', floor=3)
+def c11f(ctx):
+    """the box handed down is always limited to the parent box; "not started" is distinguishable from "finished" in the
+    stored progress"""
+    wk = ctx.fn(S + ':TileWalker._walk')
+    g = wk.cfg
+    lim = g.find_stmts(lambda s: isinstance(s, ast.Assign) and unparse(s.targets[0]) == 'sub_bbox' and is_call(s.value, 'limit_sub_bbox'))
+    rec = g.find(lambda x: is_call(x, 'self._walk'))
+    ok = bool(lim) and bool(rec) and all(any(g.dominates(l, n) for l in lim) for n, x in rec)
+    ctx.check(ok, 'TileWalker._walk:sub-box-limited-on-every-path', 'limit_sub_bbox is applied on every path to the recursion (also for fully contained sub tiles)', wk,
+              fail='the recursion can be entered with the full (meta) tile box of the sub tile: on grids whose tiles do not nest, tiles outside the '
+                   'coverage are seeded')
+    init = ctx.fn(S + ':SeedProgress.__init__')
+    iv = [s.value for s in init.walk() if isinstance(s, ast.Assign) and unparse(s.targets[0]) == 'self.level_progresses']
+    cs = ctx.fn(S + ':SeedProgress.can_skip')
+    fin = [unparse(c.comparators[0]) for c in cs.walk() if isinstance(c, ast.Compare) and unparse(c.left) == 'old_progress' and isinstance(c.ops[0], ast.Eq)]
+    ok = bool(iv) and bool(fin) and all(unparse(v) not in fin for v in iv) and all(const_value(v, 1) is None for v in iv)
+    ctx.check(ok, 'SeedProgress:not-started-is-not-finished', 'the initial progress (None) differs from the identifier that means "everything finished" (%s)' % fin, init,
+              fail='the initial progress equals the identifier that means "everything finished" (%s): a run interrupted right after its first '
+                   'progress report is skipped completely on --continue' % fin)
+    cp = ctx.fn(S + ':SeedProgress.current_progress_identifier')
+    ok = any(isinstance(s, ast.If) and 'self.level_progresses is None' in unparse(s.test) for s in cp.walk())
+    ctx.check(ok, 'SeedProgress.current_progress_identifier:none-keeps-old', 'before the first step_down the old identifier is kept', cp,
+              fail='current_progress_identifier does not keep the old identifier while the walk has not started')
